@@ -16,7 +16,7 @@ def run_multi(seed):
     larger than one message; what goes out in pieces must be the sender's current log entry, and all replicas must end up
     with equal states"""
     from . import sched, engine_core
-    cfg = {'voters': ['a', 'b', 'c'], 'batch': 60}
+    cfg = {'voters': ['a', 'b', 'c'] if seed % 2 else ['a', 'b', 'c', 'd', 'e'], 'batch': 60}
     w = dict(engine_core.W_BASE)
     w.update({'submit': 6, 'brk': 0.4})
     extra = {'maxcmd': 30, 'sizes': [150, 200, 260], 'phases': engine_core.REELECT['phases'] + [[0, {}, [['quiet', 24, 2]]]]}
@@ -274,7 +274,10 @@ def run(prop, tier, seed, out=print):
         ev.write()
         for v, path in reported[:4]:
             out('VIOLATION property=%s replay=%s' % (prop, path))
-            out('  formula(s) %s: batch %s, command %s bytes (pickled %s), labels %s' % (v['names'], v['rec']['b'], v['rec']['c'], v['rec']['p'], v['rec']['labels'][:6]))
+            if v['rec'].get('multi'):
+                out('  formula(s) %s in a run with large entries under leader changes (seed %s): %s' % (v['names'], v['rec']['seed'], json.dumps({k: v['rec'][k] for k in ('bad_pieces', 'equal', 'nexc', 'lens')})[:300]))
+            else:
+                out('  formula(s) %s: batch %s, command %s bytes (pickled %s), labels %s' % (v['names'], v['rec']['b'], v['rec']['c'], v['rec']['p'], v['rec']['labels'][:6]))
         if reported:
             return 1
         if machinery:
@@ -289,10 +292,18 @@ def run(prop, tier, seed, out=print):
 def replay(path, out=print):
     body = json.load(open(path))
     c = body['case']
+    if c and c[0] == 'multi':
+        r = run_multi(c[1])
+        out('  %s' % json.dumps({k: r[k] for k in ('bad_pieces', 'equal', 'nexc', 'lens')})[:300])
+        if r['bad_pieces'] or not r['equal'] or r['nexc']:
+            out('VIOLATION property=%s replay=%s' % (body['property'], path))
+            return 1
+        out('no formula of %s fails on this run' % body['property'])
+        return 0
     shape = c[4]
     if shape is not None:
         shape = (shape[0], shape[1])
-    rec = run_case(c[0], c[1], c[2], c[3], shape)
+    rec = run_case(c[0], c[1], c[2], c[3], shape, None, c[6] if len(c) > 6 else 0)
     wd = tlc.scratch('verif_replayc_')
     try:
         r = validate([rec], wd, 'replay')
